@@ -70,6 +70,21 @@ impl NodeHandle {
     ///
     /// Automatically calls [`NodeHandle::dispose_children`].
     pub fn dispose(self) {
+        // Unsubscribe self from everything it depends on first. Otherwise a cleanup callback that
+        // writes to one of these dependencies would re-run this node while it is being disposed,
+        // and whatever that run creates would never be disposed.
+        {
+            let mut nodes = self.1.nodes.borrow_mut();
+            let dependencies = match nodes.get_mut(self.0) {
+                Some(this) => std::mem::take(&mut this.dependencies),
+                None => Default::default(),
+            };
+            for dependency in dependencies {
+                if let Some(dependency) = nodes.get_mut(dependency) {
+                    dependency.dependents.retain(|&id| id != self.0);
+                }
+            }
+        }
         // Dispose children first since this node could be referenced in a cleanup.
         self.dispose_children();
         let mut nodes = self.1.nodes.borrow_mut();
